@@ -461,6 +461,13 @@ func runC15(c *Ctx) {
 	c.lateDerived("C15")
 	c.M.Case("late-starter-2")
 	c.lateStarter()
+	// the same schedule on one and two processors: "one goroutine per element" does not depend on GOMAXPROCS
+	for _, procs := range []int{1, 2} {
+		old := runtime.GOMAXPROCS(procs)
+		c.M.Case(fmt.Sprintf("late-starter-gomaxprocs-%d", procs))
+		c.lateStarter(2, 3, 17, 300)
+		runtime.GOMAXPROCS(old)
+	}
 	// independent containers used concurrently (each goroutine its own): results as in a sequential run
 	c.M.Case("concurrent-independent")
 	for rep := 0; rep < c.N(6, 40); rep++ {
@@ -613,6 +620,18 @@ func (c *Ctx) concurrentIndependent(k int) {
 			sb.WriteString(fmt.Sprint(o.GetTF(".a#2.b")))
 		}
 		sb.WriteString(fmt.Sprint(l.Sum(), l.IntSum(), l.Max()))
+		// strings and keys with escapes (decoded through the parser's unquoting), different per goroutine
+		esc := "[\"g" + strconv.Itoa(g) + "\\n\\u00e9\\\\" + strings.Repeat("\\t"+strconv.Itoa(g), 10+g) + "\",{\"k\\u0041" + strconv.Itoa(g) + "\\/\":\"v\\\"" + strings.Repeat("w", g) + "\"}]"
+		if pl, err := at.ParseList(esc); err == nil {
+			sb.WriteString(pl.String())
+		} else {
+			sb.WriteString(err.Error())
+		}
+		// tree-form reads with index spellings nobody used before (per goroutine and repetition)
+		for i := 0; i < 8; i++ {
+			idx := (i*7 + g) % 64
+			sb.WriteString(fmt.Sprint(l.GetTF("#"+strconv.Itoa(idx)), l.TypeOfTF("#"+strconv.Itoa(idx)), l.TypeOfTF("#0"+strconv.Itoa(idx%8)), l.TypeOfTF("#"+strconv.Itoa(1000+idx+g*64))))
+		}
 		return sb.String()
 	}
 	want := make([]string, k)
@@ -651,8 +670,11 @@ func (c *Ctx) concurrentIndependent(k int) {
 // lateStarter: a schedule in which the callbacks of all elements but the last wait until the callback of the last
 // element has started.  With one goroutine per element this schedule always completes; an implementation that
 // runs the callbacks in a bounded pool, in batches or one after another admits no such execution and never returns.
-func (c *Ctx) lateStarter() {
-	for _, n := range []int{2, 3, 17, 257, 300, 1025, c.N(1500, 5000)} {
+func (c *Ctx) lateStarter(sizes ...int) {
+	if len(sizes) == 0 {
+		sizes = []int{2, 3, 17, 257, 300, 1025, c.N(1500, 5000)}
+	}
+	for _, n := range sizes {
 		gs := make([]any, n)
 		kv := make([]any, 0, 2*n)
 		for i := range gs {
